@@ -499,6 +499,19 @@ func (h *history) run() error {
 			} else {
 				h.count("l3_c11_not_halted_after:"+attack, 1)
 			}
+			// what C11 forbids is propagation: the attacked root's fate reaching
+			// the other root (counted only; C11 has its own check)
+			for _, pair := range [][4]Snap{{v.preA, v.postA, v.preB, v.postB}, {v.preB, v.postB, v.preA, v.postA}} {
+				attackedPre, otherPre, otherPost := pair[0], pair[2], pair[3]
+				if r := attackedPre[""]; r != nil && r.Kind == 'd' && len(attackedPre) > 1 {
+					continue // this is not the attacked side
+				}
+				if o := otherPost[""]; otherPre[""] != nil && (o == nil || o.Kind != otherPre[""].Kind) {
+					h.count("l3_c11_root_fate_propagated", 1)
+				} else if len(otherPre) > 2 && len(otherPost) == 1 {
+					h.count("l3_c11_root_emptying_propagated", 1)
+				}
+			}
 			if ended == "" {
 				ended = "root-attacked"
 			}
